@@ -186,4 +186,133 @@ theorem walkBack_spec {c : Ctx} {S : List Block} (H : ReorgHyp c S) {s : Store} 
   obtain ⟨w', hw⟩ := walkBack_loop H hf fuel s p x t tc₀ rolled₀ hfp hmax hhS hI hx ht (by omega) hAR
   exact ⟨f, w', by omega, hf, fun j h1 h2 => hmax j h1 (by omega), hw⟩
 
+-- ------------------------------------------------------------------ reorg step 2 as a whole
+
+/-- `reorgDisconnect` from the aligned block `nb = N[h]` (`h` ≤ the wallet's tip height) rolls the wallet back
+    to the FORK HEIGHT `f` = the largest `f ≤ h` up to which `S` and `N` agree, disconnecting exactly the
+    heights above `f`, and returns the node's blocks above `f` up to `h` in front of `tc`. No error exit. -/
+theorem reorgDisconnect_spec {c : Ctx} {S : List Block} (H : ReorgHyp c S) {s : Store} {h : Nat} {nb : Block}
+    (tc : List Block) (hI : Inv c s S) (hh : h < S.length) (hnb : c.node.chain[h]? = some nb)
+    (hAR : AllReady c.own (readyWallets s c.wallets)) :
+    ∃ f s', f ≤ h ∧ S.take (f + 1) = c.node.chain.take (f + 1) ∧
+      (∀ j, f < j → j ≤ h → S.take (j + 1) ≠ c.node.chain.take (j + 1)) ∧
+      reorgDisconnect c s (tipMeta S) nb tc =
+        .ok (s', descList (S.length - 1) f, (c.node.chain.take (h + 1)).drop (f + 1) ++ tc) ∧
+      Inv c s' (S.take (f + 1)) ∧ ∀ ws, readyWallets s' ws = readyWallets s ws := by
+  obtain ⟨xH, hxH, htip⟩ := tipMeta_good H.goodS
+  have hnbh : nb.height = h := H.goodN.height_at hnb
+  have hSlen : S.length - 1 + 1 = S.length := by have := H.goodS.length_pos; omega
+  have hItop : Inv c s (S.take (S.length - 1 + 1)) := by rw [hSlen, List.take_length]; exact hI
+  unfold reorgDisconnect
+  rw [htip]
+  simp only
+  by_cases hid : xH.id = nb.id
+  · -- the wallet's tip is the aligned block
+    have hpos := pos_of_id H.goodS H.goodN H.inj hxH hnb hid
+    have hpre := prefix_of_id H.goodS H.goodN H.inj _ _ _ hxH (by rw [hpos]; exact hnb) hid
+    refine ⟨h, s, Nat.le_refl _, by rw [← hpos]; exact hpre, fun j h1 h2 => by omega, ?_, ?_, fun _ => rfl⟩
+    · simp only [hid, if_true]
+      rw [hpos, descList_self, List.drop_take]; simp
+    · rw [← hpos]; exact hItop
+  · simp only [hid, if_false]
+    obtain ⟨s1, h1, hI1, hr1⟩ := disconnectDown_loop H h (S.length - 1 + 1) s (S.length - 1) [] hItop
+      (by omega) (by omega) (by omega) hAR
+    rw [hnbh, h1]
+    simp only [M_ok_bind, List.nil_append]
+    have hxh : S[h]? = some S[h] := List.getElem?_eq_getElem hh
+    rw [sync_of_inv hI1 (Nat.lt_succ_self h) hxh]
+    simp only
+    have hAR1 : AllReady c.own (readyWallets s1 c.wallets) := by rw [hr1]; exact hAR
+    by_cases hid2 : S[h].id = nb.id
+    · have hpre := prefix_of_id H.goodS H.goodN H.inj _ _ _ hxh hnb hid2
+      refine ⟨h, s1, Nat.le_refl _, hpre, fun j h1 h2 => by omega, ?_, hI1, hr1⟩
+      simp only [hid2, if_true]
+      rw [List.drop_take]; simp
+    · simp only [hid2, if_false]
+      have hne : S.take (h + 1) ≠ c.node.chain.take (h + 1) := by
+        intro e
+        have := get_of_take_eq e (Nat.le_refl h)
+        rw [hxh, hnb] at this
+        exact hid2 (congrArg Block.id (Option.some.inj this))
+      have hh0 : ¬ h = 0 := by
+        intro h0; subst h0; exact hne H.take1
+      simp only [hh0, if_false]
+      have hx' : S[h - 1]? = some S[h - 1] := List.getElem?_eq_getElem (by omega)
+      rw [sync_of_inv hI1 (by omega) hx']
+      simp only
+      obtain ⟨f, w', hfh, hf, hmax, hw, hw1, hw2, hw3, hw4, hw5, hw6⟩ :=
+        walkBack_spec H (fuel := S.length - 1 + 2) tc (descList (S.length - 1) h) (by omega) hh hI1 hx' hnb
+          (by omega) hAR1
+      rw [hw]
+      simp only [M_ok_bind, Bool.not_true, Bool.false_eq_true, if_false]
+      obtain ⟨s2, h2, hI2, hr2⟩ := disconnect_step H (k := f + 1) (by omega) (by omega) hw3
+        (by rw [hw6]; exact hAR1)
+      rw [hw1, h2]
+      simp only [M_ok_bind]
+      refine ⟨f, s2, by omega, hf, ?_, ?_, hI2, fun ws => ((hr2 ws).trans (hw6 ws)).trans (hr1 ws)⟩
+      · intro j h1 h2
+        by_cases hj : j = h
+        · subst hj; exact hne
+        · exact hmax j h1 (by omega)
+      · rw [hw5, hw4, seg_cons hw2 (by omega), List.append_assoc,
+          ← descList_concat (hi := h) (lo := f) (by omega),
+          descList_append (by omega) (by omega)]
+        simp
+
+-- ------------------------------------------------------------------ 5. reorg
+
+/-- item 5, REORG REACHES THE TARGET: for any stored chain `S` and any block `b` of the node's best chain,
+    `reorg` succeeds and the store then holds exactly the books of `T = N.take (b.height+1)` – whatever the
+    relation of `S` and `T` (same genesis): `S = c₁ ++ old`, `T = c₁ ++ new`, either part possibly empty.
+    Also: the fork height `f` is maximal, exactly the heights above `f` are rolled back (descending) and
+    exactly the heights `f+1 … b.height` are connected (ascending). -/
+theorem reorg_reaches {c : Ctx} {S : List Block} (H : ReorgHyp c S) {s : Store} {b : Block}
+    (hI : Inv c s S) (hb : c.node.chain[b.height]? = some b)
+    (hAR : AllReady c.own (readyWallets s c.wallets)) (hne : (readyWallets s c.wallets).isEmpty = false) :
+    ∃ s' rolled added, reorg c s (tipMeta S) b = .ok (s', rolled, added) ∧
+      Inv c s' (c.node.chain.take (b.height + 1)) ∧ (∀ ws, readyWallets s' ws = readyWallets s ws) ∧
+      ∃ f, f ≤ b.height ∧ f < S.length ∧ S.take (f + 1) = c.node.chain.take (f + 1) ∧
+        (∀ j, f < j → j ≤ b.height → j < S.length → S.take (j + 1) ≠ c.node.chain.take (j + 1)) ∧
+        rolled = descList (S.length - 1) f ∧
+        added.map (·.1) = (List.range' (f + 1) (b.height - f)) := by
+  obtain ⟨xH, hxH, htip⟩ := tipMeta_good H.goodS
+  have hSpos := H.goodS.length_pos
+  obtain ⟨nb, hnb, hal⟩ := alignNew_min H.goodN H.inj.right (S.length - 1) hb
+  obtain ⟨f, s1, hfh, hf, hmax, hrd, hI1, hr1⟩ :=
+    reorgDisconnect_spec H (h := min b.height (S.length - 1)) (nb := nb)
+      ((c.node.chain.take (b.height + 1)).drop (min b.height (S.length - 1) + 1)) hI (by omega) hnb hAR
+  rw [seg_append _ hfh (by omega)] at hrd
+  have hfb : f ≤ b.height := by omega
+  obtain ⟨s2, added, hca, hI2, hst2, hadd⟩ := connectAll_sound (c := c)
+    ((c.node.chain.take (b.height + 1)).drop (f + 1)) s1 (c.node.chain.take (f + 1))
+    (c.node.chain.drop (b.height + 1)) [] (by rw [← hf]; exact hI1) (chain_split _ hfb) H.validN
+    H.goodN.heights (by rw [hr1]; exact hAR) (by rw [hr1]; exact hne)
+  rw [take_append_seg _ hfb] at hI2
+  refine ⟨s2, _, added, ?_, hI2, fun ws => (readyWallets_congr hst2 ws).trans (hr1 ws),
+    f, hfb, by omega, hf, fun j h1 h2 h3 => hmax j h1 (by omega), rfl, ?_⟩
+  · unfold reorg
+    have : (tipMeta S).height = S.length - 1 := by rw [htip]
+    rw [this, hal]
+    simp only [M_ok_bind]
+    rw [hrd]
+    simp only [M_ok_bind]
+    rw [hca]; rfl
+  · rw [hadd]
+    simp only [List.map_nil, List.nil_append]
+    -- heights of a segment of a good chain
+    apply List.ext_getElem?
+    intro i
+    simp only [List.getElem?_map, List.getElem?_drop]
+    by_cases hi : f + 1 + i < b.height + 1
+    · rw [getElem?_take_of_lt hi]
+      have hlt : f + 1 + i < c.node.chain.length := by
+        have := (List.getElem?_eq_some_iff.1 hb).1; omega
+      have hy : c.node.chain[f + 1 + i]? = some c.node.chain[f + 1 + i] := List.getElem?_eq_getElem hlt
+      rw [hy, List.getElem?_range' (by omega)]
+      simp only [Option.map_some]
+      rw [H.goodN.height_at hy]; simp
+    · rw [List.getElem?_take]
+      simp only [hi, if_false, Option.map_none]
+      rw [List.getElem?_eq_none (by simp; omega)]
+
 end MW.Lemmas.Ledger
